@@ -204,6 +204,117 @@ fn verify_case(
     t.outcome(&key);
 }
 
+/// An entry with several recorded checksums in the given order, the ones selected by
+/// `wrong` carrying a corrupted hash: verify_checksums returns one verdict per recorded
+/// checksum *in recording order*, each equal to verify_checksum for that algorithm.
+fn multi_case(t: &mut Tally, dir: &Path, name: &str, content: &[u8], algos: &[&str], wrong: u32, via_text: bool) {
+    t.evals += 1;
+    t.validated += 1;
+    t.transitions += 1;
+    let patch = md::classify(name.as_bytes()) == md::Class::Patch;
+    let path = dir.join(name);
+    let case = || json!({"name": name, "content": bytes_json(content), "algos": algos, "wrong_mask": wrong, "via_text": via_text});
+    if std::fs::write(&path, content).is_err() {
+        t.violation(Violation::new("multi", case(), json!("scratch file written"), json!("write failed"), "harness: cannot write scratch file"));
+        return;
+    }
+    let recorded: Vec<(String, String, String)> = algos
+        .iter()
+        .enumerate()
+        .map(|(i, a)| {
+            let truth = model_hash(a, content, patch);
+            let rec = if wrong >> i & 1 == 1 {
+                let mut c: Vec<char> = truth.chars().collect();
+                let k = (i * 7) % c.len();
+                c[k] = flip_hex(c[k]);
+                c.into_iter().collect()
+            } else {
+                truth.clone()
+            };
+            (a.to_string(), rec, truth)
+        })
+        .collect();
+    let r = guard(|| {
+        let di = if via_text {
+            let f = File { name: name.as_bytes().to_vec(), checksums: recorded.iter().map(|(a, r, _)| (a.clone(), r.clone())).collect(), size: if patch { None } else { Some(content.len() as u64) } };
+            let m = Model { rcsid: None, distfiles: if patch { vec![] } else { vec![f.clone()] }, patchfiles: if patch { vec![f] } else { vec![] } };
+            Distinfo::from_bytes(&md::serialise(&m))
+        } else {
+            let mut d = Distinfo::new();
+            d.insert(Entry::new(name, &path, recorded.iter().map(|(a, r, _)| Checksum::new(digest_of(a), r.clone())).collect(), if patch { None } else { Some(content.len() as u64) }));
+            d
+        };
+        let all = di.verify_checksums(&path);
+        let each: Vec<_> = recorded.iter().map(|(a, _, _)| di.verify_checksum(&path, digest_of(a))).collect();
+        let via_entry = di.find_entry(&path).ok().map(|e| e.verify_checksums(&path));
+        (all, each, via_entry)
+    });
+    let (all, each, via_entry) = match r {
+        Ok(x) => x,
+        Err(m) => {
+            t.violation(Violation::new("multi", case(), json!("returns"), json!(format!("panic: {}", m)), "verification panicked"));
+            return;
+        }
+    };
+    let show = |v: &Result<Digest, DistinfoError>| match v {
+        Ok(d) => json!({"ok": d.to_string()}),
+        Err(e) => err_json(e),
+    };
+    let verdict_ok = |v: &Result<Digest, DistinfoError>, (a, rec, truth): &(String, String, String)| -> bool {
+        if rec == truth {
+            matches!(v, Ok(d) if d.to_string() == *a)
+        } else {
+            matches!(v, Err(DistinfoError::Checksum(p, d, exp, act)) if p.as_os_str() == std::ffi::OsStr::new(name) && d.to_string() == *a && exp == rec && act == truth)
+        }
+    };
+    let want: Vec<Value> = recorded.iter().map(|(a, rec, truth)| if rec == truth { json!({"ok": a}) } else { json!({"Checksum": {"algo": a, "expected": rec, "actual": truth}}) }).collect();
+    let lists: Vec<(&str, &Vec<Result<Digest, DistinfoError>>)> = match &via_entry {
+        Some(v) => vec![("Distinfo::verify_checksums", &all), ("verify_checksum per algorithm", &each), ("Entry::verify_checksums", v)],
+        None => {
+            t.violation(Violation::new("multi", case(), json!("found"), json!("NotFound"), "find_entry must locate the entry from its full path"));
+            return;
+        }
+    };
+    for (what, l) in lists {
+        if l.len() != recorded.len() || !l.iter().zip(recorded.iter()).all(|(v, r)| verdict_ok(v, r)) {
+            t.violation(Violation::new("multi", case(), json!(want), json!(l.iter().map(show).collect::<Vec<_>>()), &format!("{}: one verdict per recorded checksum, in recording order, each about its own algorithm and hash", what)));
+            return;
+        }
+    }
+    if wrong != 0 {
+        t.nontrivial += 1;
+    }
+    t.outcome(if wrong == 0 { "multi/all-match" } else if wrong + 1 == 1 << algos.len() { "multi/all-mismatch" } else { "multi/mixed" });
+}
+
+/// Every ordered selection of 1..=3 of the six algorithms, and all six in 12 orders.
+fn algo_orders() -> Vec<Vec<&'static str>> {
+    let mut out: Vec<Vec<&'static str>> = vec![];
+    for a in 0..6 {
+        out.push(vec![ALGOS[a]]);
+        for b in 0..6 {
+            if b == a {
+                continue;
+            }
+            out.push(vec![ALGOS[a], ALGOS[b]]);
+            for c in 0..6 {
+                if c == a || c == b {
+                    continue;
+                }
+                out.push(vec![ALGOS[a], ALGOS[b], ALGOS[c]]);
+            }
+        }
+    }
+    for rot in 0..6 {
+        let fwd: Vec<&str> = (0..6).map(|i| ALGOS[(rot + i) % 6]).collect();
+        let mut rev = fwd.clone();
+        rev.reverse();
+        out.push(fwd);
+        out.push(rev);
+    }
+    out
+}
+
 fn contents(max_lines: usize) -> Vec<Vec<u8>> {
     let mut out = vec![];
     let mut pre = vec![];
@@ -304,16 +415,37 @@ fn lookup_model(recorded: &[String], path: &str) -> Option<String> {
     None
 }
 
-fn check_lookup(t: &mut Tally, recorded: &[String], path: &str) {
+/// `how`: 0 = entries inserted through the API; 1..=4 = the distinfo is parsed from text in which
+/// each name is recorded by checksum + size lines, a size line only, a checksum line only, or the
+/// size line before the checksum line.
+fn check_lookup(t: &mut Tally, recorded: &[String], path: &str, how: usize) {
     t.evals += 1;
     t.validated += 1;
     t.transitions += 1;
-    let case = || json!({"recorded": recorded, "lookup": path});
+    let case = || json!({"recorded": recorded, "lookup": path, "how": how});
     let want = lookup_model(recorded, path);
     let r = guard(|| {
         let mut d = Distinfo::new();
-        for (i, n) in recorded.iter().enumerate() {
-            d.insert(Entry::new(n, "/nonexistent", vec![Checksum::new(Digest::SHA1, format!("{:040x}", i))], Some(i as u64)));
+        if how == 0 {
+            for (i, n) in recorded.iter().enumerate() {
+                d.insert(Entry::new(n, "/nonexistent", vec![Checksum::new(Digest::SHA1, format!("{:040x}", i))], Some(i as u64)));
+            }
+        } else {
+            let mut text = b"$NetBSD$\n\n".to_vec();
+            for (i, n) in recorded.iter().enumerate() {
+                let ck = format!("SHA1 ({}) = {:040x}\n", n, i);
+                let sz = format!("Size ({}) = {} bytes\n", n, i);
+                // vary the recording style per name so that mixed files are covered as well
+                let style = if how == 5 { 1 + (i % 4) } else { how };
+                let lines = match style {
+                    1 => format!("{}{}", ck, sz),
+                    2 => sz,
+                    3 => ck,
+                    _ => format!("{}{}", sz, ck),
+                };
+                text.extend_from_slice(lines.as_bytes());
+            }
+            d = Distinfo::from_bytes(&text);
         }
         let found = d.find_entry(PathBuf::from(path)).map(|e| e.filename.to_string_lossy().into_owned()).map_err(|e| matches!(e, DistinfoError::NotFound));
         // the verifying entry points must report the same miss
@@ -348,7 +480,13 @@ fn replay(run: &Run, doc: &Value) -> Option<Violation> {
     match doc["kind"].as_str() {
         Some("lookup") => {
             let rec: Vec<String> = c["recorded"].as_array().map(|a| a.iter().filter_map(|x| x.as_str().map(|s| s.to_string())).collect()).unwrap_or_default();
-            check_lookup(&mut t, &rec, c["lookup"].as_str().unwrap_or(""));
+            check_lookup(&mut t, &rec, c["lookup"].as_str().unwrap_or(""), c["how"].as_u64().unwrap_or(0) as usize);
+        }
+        Some("multi") => {
+            let dir = run.scratch_dir().join("replay");
+            let _ = std::fs::create_dir_all(&dir);
+            let algos: Vec<&str> = c["algos"].as_array().map(|a| a.iter().filter_map(|x| x.as_str()).collect()).unwrap_or_default();
+            multi_case(&mut t, &dir, c["name"].as_str().unwrap_or("f.tgz"), &bytes_from_json(&c["content"]), &algos, c["wrong_mask"].as_u64().unwrap_or(0) as u32, c["via_text"].as_bool().unwrap_or(false));
         }
         _ => {
             let dir = run.scratch_dir().join("replay");
@@ -420,7 +558,7 @@ fn main() {
         format!("{}/f", root), format!("{}/d/f", root), format!("{}/e/d/f", root), format!("{}/x/d/f", root),
         format!("{}/x/f", root), format!("{}/g", root), format!("{}/h", root), "f".to_string(), "d/f".to_string(), "q/e/d/f".to_string(),
     ];
-    run.bound("lookup: 64 recorded-name subsets (incl. an empty recorded name) x 2 recording orders x 10 lookup paths x {distfile names, patch names}");
+    run.bound("lookup: 64 recorded-name subsets (incl. an empty recorded name) x 2 recording orders x 10 lookup paths x {distfile names, patch names} x {inserted through the API, parsed from text with checksum+size / size only / checksum only / size first / mixed lines per name}");
     let masks: Vec<u32> = (0..64).collect();
     par_items(&run, "C12 lookup", &masks, |_, mask, t| {
         for patch in [false, true] {
@@ -436,10 +574,40 @@ fn main() {
             for p in &paths {
                 let p = if patch { match p.rfind('/') { Some(k) => format!("{}/patch-{}", &p[..k], &p[k + 1..]), None => format!("patch-{}", p) } } else { p.clone() };
                 t.states += 2;
-                check_lookup(t, &rec, &p);
-                check_lookup(t, &rev, &p);
+                check_lookup(t, &rec, &p, 0);
+                check_lookup(t, &rev, &p, 0);
+                // parsed from text; size lines exist for distfiles only, an empty name cannot be written
+                if !rec.iter().any(|n| n.is_empty()) {
+                    for how in if patch { vec![3usize] } else { vec![1usize, 2, 3, 4, 5] } {
+                        t.states += 2;
+                        check_lookup(t, &rec, &p, how);
+                        check_lookup(t, &rev, &p, how);
+                    }
+                }
             }
         }
     });
+    // several checksums per file, in every recording order
+    {
+        let orders = algo_orders();
+        run.bound(format!("multi-checksum entries: {} recording orders (every ordered selection of 1..3 algorithms, all six in 12 orders) x every subset of corrupted hashes (<= 3 algorithms; none/each single/all for six) x {{f.tgz, patch-aa}} x {{API, parsed text}}", orders.len()));
+        par_items(&run, "C12 multi-checksum", &orders, |i, algos, t| {
+            let dir = scratch.join(format!("m{}", i));
+            if std::fs::create_dir_all(&dir).is_err() {
+                return;
+            }
+            let content: &[u8] = b"a\n$NetBSD: p,v 1.1 $\nb\n";
+            let masks: Vec<u32> = if algos.len() <= 3 { (0..1u32 << algos.len()).collect() } else { (0..algos.len()).map(|k| 1u32 << k).chain([0, (1 << algos.len()) - 1]).collect() };
+            for name in ["f.tgz", "patch-aa"] {
+                for m in &masks {
+                    for via_text in [false, true] {
+                        t.states += 1;
+                        multi_case(t, &dir, name, content, algos, *m, via_text);
+                    }
+                }
+            }
+            let _ = std::fs::remove_dir_all(&dir);
+        });
+    }
     run.finish();
 }
